@@ -200,8 +200,13 @@ def specBuild (eqv : Eqv) (z : SZone) (rs : List Rec) : SZone := rs.foldl (specA
 /-- the nodes of the zone: the apex and every name between the apex and an owner -/
 def IsNode (z : SZone) (n : Name) : Prop := n = z.apex ∨ (n ≠ z.apex ∧ z.apex <:+ n ∧ ∃ r ∈ z.recs, n <:+ r.owner)
 
+/-- remove repeated names (keeps the last occurrence of each) -/
+def dedup : List Name → List Name
+  | [] => []
+  | a :: l => if a ∈ l then dedup l else a :: dedup l
+
 def specNodes (z : SZone) : List Name :=
-  (z.apex :: z.recs.flatMap (fun r => pathBelow z.apex r.owner)).eraseDups
+  dedup (z.apex :: z.recs.flatMap (fun r => pathBelow z.apex r.owner))
 
 def specIterByNode (z : SZone) : List (Name × List Rrset) := (specNodes z).map (fun n => (n, rrsetsAt z n))
 
@@ -273,7 +278,7 @@ def specValidate (nameOf : NameOf) (z : SZone) : Option (List Issue) :=
   if ac && (nsRecs.any (fun r => (nameOf r.rdata).isNone) || mxRecs.any (fun r => (mxName nameOf r.rdata).isNone)) then none
   else
     let apexSoa := z.recs.filter (fun r => r.owner == z.apex && r.rtype == SOA)
-    let owners := (z.recs.map (·.owner)).eraseDups
+    let owners := dedup (z.recs.map (·.owner))
     some (
       (if apexSoa.isEmpty then [.MissingApexSoa] else []) ++
       (if 2 ≤ apexSoa.length then [.TooManyApexSoas] else []) ++
